@@ -493,6 +493,9 @@ def items(tier, rng):
                     continue
                 out.append({"name": "%s_%d_%s" % (algo, n, "".join("%d%d" % a for a in arcs)), "harness": "h_edges",
                             "params": {"algo": algo, "n": n, "arcs": arcs, "src": 0, "target": target}})
+            if (len(arcs) + n) % 2 == 0 and arcs:  # node 0 as the target of a search that starts elsewhere (0 is falsy: "no target" must be `is None`)
+                out.append({"name": "%s_to0_%d_%s" % (algo, n, "".join("%d%d" % a for a in arcs)), "harness": "h_edges",
+                            "params": {"algo": algo, "n": n, "arcs": arcs, "src": n - 1, "target": 0}})
         for directed in (True, False):
             if not directed and len(arcs) > 4:
                 continue
